@@ -25,11 +25,14 @@ META = dict(
     text="Machine-checked (Coq 8.16.1): for every depth >= 1 and every reachable index the kernel half-width is min(idx+1, depth), the unsigned subtraction nl-n cannot underflow, every tap index is in range after the ring buffer's wrap, and over the reals with the true sin/cos/pi the interpolator at x = 0 returns exactly frames[idx], a converter at ratio 1 outputs source frame j-depth (zeros before), interpolation is linear in the buffered frames and reset restores the initial silent state. The 1e-12 bound, linearity within rounding, finiteness and the 1 % constant-reproduction clause depend on glibc's sin/cos and on rounding: they are TESTED (depth 1..64, fractional positions, f64/f32/i16, mono/stereo, priming phase and after reset) against the real crate.",
     note="Trusted: Coq kernel; the hand-written model validated by running it in coqc with the implementation's sin/cos values as data and comparing bit for bit; lib/c18_model.py (second transcription, compared bit for bit on all cases); Base/Float.v validated against rustc by floatbase. Axioms: the 4 standard-library axioms of Coq's classical reals (theorems over R only). Known finding K5: integer frames overflow in add_amp when the kernel overshoots.",
     design="6/C18")
-HEADER = "From Dasp Require Import Dsp.SincRun."
-CHECK = "check"
+HEADER = "From Dasp Require Import Dsp.SincRun Dsp.SincRunGen."
+CHECK = "check_all"
 b64 = M.bits_of_f64
 b32 = M.bits_of_f32
-FMT_NAMES = {0: "f64", 1: "f32", 2: "i16"}
+FMT_NAMES = {c: M.FMT[c]["name"] for c in M.FMT}
+INT_CODES = sorted(M.INT_FORMATS)          # 10..21: the twelve integer formats through the generated conversions
+ALL_FMTS = [0, 1, 2] + INT_CODES + [22, 23]
+FLOAT32, FLOAT64 = (1, 22), (0, 23)
 K5 = "K5"
 
 
@@ -82,16 +85,31 @@ def rnd_unit(r):
     return (r.below(1 << 53) / float(1 << 53)) * 2.0 - 1.0
 
 
+def amp_limit(fmt):
+    """amplitude bound of the verdict streams of an integer format: a quarter of full scale (no overshoot possible:
+    sum |w| < 3 is far from reached by random data; K5 is decided on the concrete evaluation anyway)"""
+    return M.FMT[fmt]["half"] // 4 - 1
+
+
+def rails(fmt):
+    F_ = M.FMT[fmt]
+    return [F_["lo"], F_["hi"], F_["lo"] + 1, F_["hi"] - 1, F_["equil"]]
+
+
 def rnd_sample(r, fmt, full_scale=False, wide=False):
-    """Z-level sample: f64/f32 bit pattern or i16 integer"""
-    if fmt == 2:
+    """Z-level sample: f64/f32 bit pattern or integer value"""
+    if M.is_int(fmt):
+        F_ = M.FMT[fmt]
         if full_scale:
-            return r.choice([-32768, 32767, 32767, -32768, r.range(-32768, 32767)])
-        return r.choice([0, 1, -1, 8000, -8000, r.range(-8000, 8000), r.range(-8000, 8000), r.range(-100, 100)])
+            return r.choice(rails(fmt)[:2] + rails(fmt)[:2] + [r.range(F_["lo"], F_["hi"])])
+        lim = amp_limit(fmt)
+        a = r.choice([0, 1, -1, lim, -lim, r.range(-lim, lim), r.range(-lim, lim), r.range(-min(lim, 100), min(lim, 100))])
+        return a + F_["off"]
     v = rnd_unit(r)
+    f64fmt = fmt in FLOAT64
     if wide and r.chance(1, 6):
-        v = v * r.choice([1e-300, 1e-30, 1e6, 1e30, 1e200]) if fmt == 0 else v * r.choice([1e-30, 1e-6, 1e6, 1e20])
-    return b64(v) if fmt == 0 else b32(M.round_f32(v))
+        v = v * r.choice([1e-300, 1e-30, 1e6, 1e30, 1e200]) if f64fmt else v * r.choice([1e-30, 1e-6, 1e6, 1e20])
+    return b64(v) if f64fmt else b32(M.round_f32(v))
 
 
 def rnd_frame(r, fmt, ch, **kw):
@@ -111,7 +129,7 @@ RATIOS = [1.0, 0.5, 0.75, 1.5, 2.0, 1.0 / 3.0, 0.1, 2.5, 3.0, 44100.0 / 48000.0,
 
 
 def gen_direct(r, depth, nops, fmt=None, ch=None, full_scale=False, tag="D"):
-    fmt = r.choice([0, 0, 1, 2]) if fmt is None else fmt
+    fmt = r.choice([0, 1, 2] + ALL_FMTS) if fmt is None else fmt
     ch = r.choice([1, 2]) if ch is None else ch
     ops = []
     for _ in range(nops):
@@ -126,7 +144,7 @@ def gen_direct(r, depth, nops, fmt=None, ch=None, full_scale=False, tag="D"):
 
 
 def gen_conv(r, depth, nout, fmt=None, ch=None, ratio=None, full_scale=False, tag="V"):
-    fmt = r.choice([0, 0, 1, 2]) if fmt is None else fmt
+    fmt = r.choice([0, 1, 2] + ALL_FMTS) if fmt is None else fmt
     ch = r.choice([1, 2]) if ch is None else ch
     ratio = (r.choice(RATIOS) if r.chance(2, 3) else 0.05 + r.below(1 << 20) / float(1 << 18)) if ratio is None else ratio
     nsrc = r.choice([0, 1, depth, 2 * depth + 1, int(nout * ratio) + 2])
@@ -137,6 +155,23 @@ def gen_conv(r, depth, nout, fmt=None, ch=None, ratio=None, full_scale=False, ta
             ops.append(["ratio", b64(r.choice(RATIOS))])
         ops.append(["next"])
     return dict(kind="V", fmt=fmt, ch=ch, depth=depth, ratio=b64(ratio), source=source, ops=ops, tag=tag)
+
+
+def level_sample(r, fmt, level):
+    """float sample at an extreme level: 'tiny' (f32: peak 2^-130..2^-120, i.e. around and below MIN_POSITIVE;
+    f64: subnormal) or 'huge' (f32 ~1e38, f64 ~1e300)"""
+    u = rnd_unit(r)
+    if fmt in FLOAT32:
+        v = u * (2.0 ** -r.range(120, 130)) if level == "tiny" else u * 1e38
+        return b32(M.round_f32(v))
+    v = u * (2.0 ** -r.range(1023, 1060)) if level == "tiny" else u * 1e300
+    return b64(v)
+
+
+def rail_frame(r, fmt, ch):
+    """integer frame from the rails MIN / MAX (and their neighbours) or the full range"""
+    F_ = M.FMT[fmt]
+    return [r.choice(rails(fmt) + rails(fmt)[:2] + [r.range(F_["lo"], F_["hi"])]) for _ in range(ch)]
 
 
 def gen_coq_cases(rng, tier):
@@ -162,6 +197,21 @@ def gen_coq_cases(rng, tier):
             k = r.range(1, depth - 1)
             items.append(dict(kind="D", fmt=fmt, ch=1, depth=depth, tag="deep",
                               ops=pushes[:k] + [["interp", b64(rnd_x(r))]] + pushes[k:] + [["interp", b64(rnd_x(r))]]))
+    # ratio 1 over the rails of every integer format (generated conversions, specification-guarded), and
+    # float streams at tiny / huge levels, ratio 1 and fractional
+    for fmt in [2] + INT_CODES:
+        r = rng.fork(f"rail{fmt}")
+        for ch in ((1, 2) if tier == "thorough" else (r.choice([1, 2]),)):
+            d = r.choice([1, 2, 3])
+            src = [rail_frame(r, fmt, ch) for _ in range(4)]
+            items.append(dict(kind="V", fmt=fmt, ch=ch, depth=d, ratio=b64(1.0), source=src, ops=[["next"]] * (d + 5), tag="rail"))
+    for fmt in (0, 1, 22, 23):
+        for level in ("tiny", "huge"):
+            r = rng.fork(f"lvl{fmt}{level}")
+            d = r.choice([1, 2, 3])
+            src = [[level_sample(r, fmt, level)] for _ in range(4)]
+            items.append(dict(kind="V", fmt=fmt, ch=1, depth=d, ratio=b64(r.choice([1.0, 1.0, 0.75])), source=src,
+                              ops=[["next"]] * (d + 5), tag="level"))
     return [build(it) for it in items]
 
 
@@ -184,45 +234,88 @@ def gen_py_cases(rng, tier):
 
 
 def gen_delay(rng, tier):
+    """ratio exactly 1, every format (hand instances 0,1,2; the twelve integer formats incl. the rails MIN / MAX;
+    f32 / f64 at ordinary, tiny and huge levels), mono and stereo"""
     depths = [1, 2, 3, 4, 5, 7, 8, 16, 31, 32, 63, 64] if tier == "quick" else list(range(1, 65))
     items = []
-    for d in depths:
-        for fmt in (0, 1, 2):
+    for i, d in enumerate(depths):
+        fmts = [0, 1, 2] + ([INT_CODES[i % 12], INT_CODES[(i + 5) % 12], 22 + i % 2] if tier == "quick" else INT_CODES + [22, 23])
+        for fmt in fmts:
             r = rng.fork(f"delay{d}.{fmt}")
             ch = r.choice([1, 2])
             L = d + r.range(3, 20)
-            source = [rnd_frame(r, fmt, ch, full_scale=(fmt == 2)) for _ in range(L)]  # exact at x = 0: full scale is fine
+            if M.is_int(fmt):
+                source = [rail_frame(r, fmt, ch) for _ in range(L)]  # exact at x = 0: full scale incl. the rails
+            else:
+                source = [rnd_frame(r, fmt, ch) for _ in range(L)]
             items.append(dict(kind="V", fmt=fmt, ch=ch, depth=d, ratio=b64(1.0), source=source, ops=[["next"]] * (L + d + 3),
                               tag="delay"))
+    # every integer format at small depths (quick: the rotation above only reaches some (format, depth) pairs)
+    for fmt in INT_CODES:
+        for ch in (1, 2):
+            r = rng.fork(f"delayint{fmt}.{ch}")
+            d = r.choice([1, 2, 3, 4, 6])
+            L = d + r.range(4, 12)
+            items.append(dict(kind="V", fmt=fmt, ch=ch, depth=d, ratio=b64(1.0), source=[rail_frame(r, fmt, ch) for _ in range(L)],
+                              ops=[["next"]] * (L + d + 3), tag="delay"))
+    # float streams whose peak is tiny (subnormal range) or huge
+    for fmt in (0, 1, 22, 23):
+        for level in ("tiny", "huge"):
+            for d in ([1, 3, 8] if tier == "quick" else [1, 2, 3, 5, 8, 16, 33, 64]):
+                r = rng.fork(f"delaylvl{fmt}.{level}.{d}")
+                ch = r.choice([1, 2])
+                L = d + r.range(3, 12)
+                source = [[level_sample(r, fmt, level) for _ in range(ch)] for _ in range(L)]
+                items.append(dict(kind="V", fmt=fmt, ch=ch, depth=d, ratio=b64(1.0), source=source, ops=[["next"]] * (L + d + 3),
+                                  tag="delay", level=level))
     return [build(it) for it in items]
 
 
 def gen_constant(rng, tier):
     depths = [4, 5, 6, 8, 16, 32, 64] if tier == "quick" else list(range(4, 65))
     items = []
+
+    def one(d, fmt, npos):
+        r = rng.fork(f"const{d}.{fmt}")
+        if M.is_int(fmt):
+            F_ = M.FMT[fmt]
+            c = r.choice([1, -1]) * r.range(F_["half"] // 16, F_["half"] // 4) + F_["off"]
+        else:
+            c = rnd_sample(r, fmt)
+            while M.FMT[fmt]["dec"](c) == 0:
+                c = rnd_sample(r, fmt)
+        xs = [(i + (r.below(1 << 20) / float(1 << 20))) / npos for i in range(npos)]  # stratified over [0,1)
+        ops = [["push", c]] * (2 * d) + [["interp", b64(x)] for x in xs]
+        items.append(dict(kind="D", fmt=fmt, ch=1, depth=d, ops=ops, tag="const", const=c))
     for d in depths:
         for fmt in (0, 1, 2):
-            npos = 64 if tier == "quick" else (1000 if fmt == 0 else 250)
-            r = rng.fork(f"const{d}.{fmt}")
-            c = rnd_sample(r, fmt)
-            while M.FMT[fmt]["dec"](c) == 0 or (fmt == 2 and abs(c) < 2000):
-                c = rnd_sample(r, fmt)
-            xs = [(i + (r.below(1 << 20) / float(1 << 20))) / npos for i in range(npos)]  # stratified over [0,1)
-            ops = [["push", c]] * (2 * d) + [["interp", b64(x)] for x in xs]
-            items.append(dict(kind="D", fmt=fmt, ch=1, depth=d, ops=ops, tag="const", const=c))
+            one(d, fmt, 64 if tier == "quick" else (1000 if fmt == 0 else 250))
+    # the other integer formats of at least 16 bits and the generated float instances
+    for d in ([4, 8, 16] if tier == "quick" else [4, 5, 8, 16, 32, 64]):
+        for fmt in [c for c in INT_CODES if M.FMT[c]["bits"] >= 16] + [22, 23]:
+            one(d, fmt, 16 if tier == "quick" else 100)
     return [build(it) for it in items]
 
 
+SCALE_K = [2.0 ** -126, 2.0 ** -100, 2.0 ** 100]
+
+
 def gen_linear(rng, tier):
-    """triples F, G, H = a F + b G with the same operation skeleton"""
+    """triples F, G, H = a F + b G with the same operation skeleton (integer formats: on the amplitudes);
+    plus pure scalings H = k F of float streams with k in {2^-126, 2^-100, 2^100} (b = 0)"""
     n = 60 if tier == "quick" else 600
+    nscale = 24 if tier == "quick" else 240
     items = []
-    for k in range(n):
+    for k in range(n + nscale):
         r = rng.fork(f"lin{k}")
+        scaling = k >= n
         depth = r.choice([1, 2, 3, 4, 8, 16, 33, 64, r.range(1, 64)])
-        fmt = r.choice([0, 0, 1, 2])
+        fmt = r.choice([0, 1, 22, 23]) if scaling else r.choice([0, 0, 1, 2, 22, 23] + INT_CODES)
         ch = r.choice([1, 2])
-        if fmt == 2:
+        isint = M.is_int(fmt)
+        if scaling:
+            a, bb = SCALE_K[k % 3], 0.0
+        elif isint:
             a, bb = r.choice([1, -1, 2, 3]), r.choice([1, -1, 2, -2])
         else:
             a, bb = rnd_unit(r) * 4.0, rnd_unit(r) * 4.0
@@ -232,17 +325,20 @@ def gen_linear(rng, tier):
         skeleton.append("interp")
         opsF, opsG, opsH = [], [], []
         dec, F_ = M.FMT[fmt]["dec"], M.FMT[fmt]
+        f64fmt = fmt in FLOAT64
         for s in skeleton:
             if s == "push":
-                if fmt == 2:
-                    lim = 8000 // (abs(a) + abs(bb))
-                    f = [r.range(-lim, lim) for _ in range(ch)]
-                    g = [r.range(-lim, lim) for _ in range(ch)]
-                    h = [a * x + bb * y for x, y in zip(f, g)]
+                if isint:
+                    lim = max(1, amp_limit(fmt) // (abs(a) + abs(bb)))
+                    fa = [r.range(-lim, lim) for _ in range(ch)]
+                    ga = [r.range(-lim, lim) for _ in range(ch)]
+                    off = F_["off"]
+                    f, g = [x + off for x in fa], [y + off for y in ga]
+                    h = [a * x + bb * y + off for x, y in zip(fa, ga)]
                 else:
                     f, g = rnd_frame(r, fmt, ch), rnd_frame(r, fmt, ch)
                     hv = [a * dec(x) + bb * dec(y) for x, y in zip(f, g)]
-                    h = [b64(v) if fmt == 0 else b32(M.round_f32(v)) for v in hv]
+                    h = [b64(v) if f64fmt else b32(M.round_f32(v)) for v in hv]
                 opsF.append(["push"] + f)
                 opsG.append(["push"] + g)
                 opsH.append(["push"] + h)
@@ -252,7 +348,8 @@ def gen_linear(rng, tier):
             else:
                 opsF.append(["reset"]), opsG.append(["reset"]), opsH.append(["reset"])
         for role, ops in (("F", opsF), ("G", opsG), ("H", opsH)):
-            items.append(dict(kind="D", fmt=fmt, ch=ch, depth=depth, ops=ops, tag="lin", role=role, a=a, b=bb, group=k))
+            items.append(dict(kind="D", fmt=fmt, ch=ch, depth=depth, ops=ops, tag="lin", role=role, a=a, b=bb, group=k,
+                              scaling=scaling))
     return [build(it) for it in items]
 
 
@@ -321,11 +418,13 @@ def nontrivial(item, recs):
 def in_k5_class(item, op_index):
     """KnownClass_int_overshoot evaluated on the concrete failing evaluation: integer frame format AND, at the
     interpolation performed by op `op_index`, some partial sum of the (exactly accumulated) taps lies outside
-    the i16 range.  The state before the op is replayed on the transcription."""
-    if item["fmt"] != 2:
+    the format's range.  The state before the op is replayed on the transcription."""
+    fmt = item["fmt"]
+    if not M.is_int(fmt):
         return False
-    dec = M.FMT[2]["dec"]
-    s = M.Sinc(2, item["ch"], item["depth"], M.Oracle(math.sin), M.Oracle(math.cos))
+    F_ = M.FMT[fmt]
+    dec = F_["dec"]
+    s = M.Sinc(fmt, item["ch"], item["depth"], M.Oracle(math.sin), M.Oracle(math.cos))
     if item["kind"] == "D":
         for op in item["ops"][:op_index]:
             if op[0] == "push":
@@ -341,12 +440,12 @@ def in_k5_class(item, op_index):
             else:
                 c.next()
         while c.ival >= 1.0:
-            fr = c.src[c.pulls] if c.pulls < len(c.src) else [0] * item["ch"]
+            fr = c.src[c.pulls] if c.pulls < len(c.src) else [F_["equil"]] * item["ch"]
             c.pulls += 1
             s.next_source_frame(fr)
             c.ival -= 1.0
         x = c.ival
-    return any(not (-32768 <= v <= 32767) for ps in s.partial_sums(x) for v in ps)
+    return any(not (F_["lo"] <= v <= F_["hi"]) for ps in s.partial_sums(x) for v in ps)
 
 
 def frames_of(item, obs):
@@ -379,6 +478,12 @@ def case_public(it):
 
 def main(rep, tier, seed):
     rng = F.Rng(seed)
+    # the integer / float sample conversions of the all-formats model (Dsp/SincRunGen.v) are the GENERATED ones:
+    # regenerate them from the current /repo first (translators of C01/C02/C03)
+    from props import c03 as _c03
+    terr, _changed = _c03.regenerate()
+    if terr:
+        rep.violation("translator", {"kind": "the conversion model cannot be regenerated from dasp_sample/src/conv.rs", "error": terr}, no_input=True)
     info = F.standard_proof_phase(rep, PROP, allowed_axioms=F.AX_REALS)
     ok, blog, binpath = F.harness_build("c18")
     if not ok:
@@ -449,7 +554,7 @@ def main(rep, tier, seed):
                 break
         decoded.append((it, rest[1:], recs))  # rest[0] is the constructor observation
         # finiteness (float formats, finite input <= 1e300 in magnitude)
-        if it["fmt"] != 2:
+        if not M.is_int(it["fmt"]):
             for fr in frames_of(it, rest[1:]).values():
                 if not all(math.isfinite(v) for v in fr):
                     nviol += 1
@@ -482,30 +587,41 @@ def main(rep, tier, seed):
     failures = []
     for it, obs, recs in decoded:
         if it["tag"] == "delay":
-            dec = M.FMT[it["fmt"]]["dec"]
+            fmt = it["fmt"]
+            F_ = M.FMT[fmt]
+            dec = F_["dec"]
+            isint = M.is_int(fmt)
+            off = F_["off"] if isint else 0
             src = [[dec(z) for z in fr] for fr in it["source"]]
-            peak = max([abs(v) for fr in src for v in fr] + [0.0])
+            peak = max([abs(v - off) for fr in src for v in fr] + [0.0])      # peak AMPLITUDE
+            # integer formats of at most 48 bits (every amplitude is a binary64 number): bit-exact, rails included;
+            # 64-bit integers and floats: 1e-12 of the peak amplitude
+            exact = isint and F_["bits"] <= 48
             d = it["depth"]
             for j, o in enumerate(obs):
                 verdicts["delay"] += 1
+                if o[:2] == [8, 1] and in_k5_class(it, j):
+                    break                                                   # known finding K5 (64-bit integers at the rails)
                 if o[0] != 1:
                     failures.append(("delay", it, f"output {j} is {o}"))
                     break
-                want = src[j - d] if d <= j < d + len(src) else [0] * it["ch"]
+                want = src[j - d] if d <= j < d + len(src) else [F_["equil"]] * it["ch"]
                 got = [dec(z) for z in o[2:]]
                 e = max(abs(g - w) for g, w in zip(got, want))
                 if peak > 0:
                     maxima["delay_err_rel"] = max(maxima["delay_err_rel"], e / peak)
-                if o[1] != j or e > 1e-12 * peak:
-                    failures.append(("delay", it, f"output {j}: got {got} pulls {o[1]}, want {want} pulls {j}, peak {peak}"))
+                if o[1] != j or (e != 0 if exact else e > 1e-12 * peak):
+                    failures.append(("delay", it, f"output {j}: got {got} pulls {o[1]}, want {want} pulls {j}, peak amplitude {peak}"))
                     break
         elif it["tag"] == "const":
-            c = M.FMT[it["fmt"]]["dec"](it["const"])
-            lsb = 2 * it["depth"] if it["fmt"] == 2 else 0   # every integer tap is truncated toward zero: < 1 LSB each
+            isint = M.is_int(it["fmt"])
+            off = M.FMT[it["fmt"]]["off"] if isint else 0
+            c = M.FMT[it["fmt"]]["dec"](it["const"]) - off           # amplitude
+            lsb = 2 * it["depth"] if isint else 0   # every integer tap is truncated toward zero: < 1 LSB each
             for i, fr in frames_of(it, obs).items():
                 verdicts["const"] += 1
-                dev = abs(fr[0] - c)
-                keym = "const_dev_rel_i16" if it["fmt"] == 2 else "const_dev_rel"
+                dev = abs((fr[0] - off) - c)
+                keym = "const_dev_rel_i16" if isint else "const_dev_rel"
                 maxima[keym] = max(maxima[keym], dev / abs(c))
                 if not dev <= 0.01 * abs(c) + lsb:
                     failures.append(("const", it, f"op {i}: got {fr[0]} for constant {c} (deviation {dev / abs(c):.4%})"))
@@ -520,23 +636,31 @@ def main(rep, tier, seed):
         (itF, oF, rF), (itG, oG, _), (itH, oH, _) = g["F"], g["G"], g["H"]
         a, bb, fmt = itF["a"], itF["b"], itF["fmt"]
         dec = M.FMT[fmt]["dec"]
-        peakF = max([abs(dec(z)) for o in itF["ops"] if o[0] == "push" for z in o[1:]] + [0.0])
-        peakG = max([abs(dec(z)) for o in itG["ops"] if o[0] == "push" for z in o[1:]] + [0.0])
+        off = M.FMT[fmt]["off"] if M.is_int(fmt) else 0      # integer formats: linear in the amplitudes
+        peakF = max([abs(dec(z) - off) for o in itF["ops"] if o[0] == "push" for z in o[1:]] + [0.0])
+        peakG = max([abs(dec(z) - off) for o in itG["ops"] if o[0] == "push" for z in o[1:]] + [0.0])
         fF, fG, fH = frames_of(itF, oF), frames_of(itG, oG), frames_of(itH, oH)
         byop = {rc["op"]: rc for rc in rF}
         for i in fH:
             verdicts["lin"] += 1
             rc_ = byop[i]
             scale = (abs(a) * peakF + abs(bb) * peakG) * max(1.0, rc_["sumw"])
-            if fmt == 0:
-                tol = 1e-12 * scale
-            elif fmt == 1:
-                tol = (8 * rc_["ntaps"] + 4) * 2.0 ** -24 * scale
-            else:
+            if fmt in FLOAT64:
+                tol = 1e-12 * scale + (8 * rc_["ntaps"] + 4) * 2.0 ** -1074
+            elif fmt in FLOAT32:   # relative rounding of every product / sum, absolute 2^-149 in the subnormal range
+                tol = (8 * rc_["ntaps"] + 4) * (2.0 ** -24 * scale + 2.0 ** -149)
+            else:   # < 1 LSB truncation per tap and evaluation; 64-bit integers also round to binary64 (2^-53 relative)
                 tol = (1 + abs(a) + abs(bb)) * rc_["ntaps"]
-            e = max(abs(h - (a * f + bb * g_)) for h, f, g_ in zip(fH[i], fF[i], fG[i]))
+                if M.FMT[fmt]["bits"] > 53:
+                    tol += (8 * rc_["ntaps"] + 4) * 2.0 ** -53 * scale
+            if i not in fF or i not in fG:
+                failures.append(("lin", itH, f"op {i}: no frame from F or G"))
+                break
+            e = max(abs((h - off) - (a * (f - off) + bb * (g_ - off))) for h, f, g_ in zip(fH[i], fF[i], fG[i]))
             if tol > 0:
                 maxima["lin_err_over_tol"] = max(maxima["lin_err_over_tol"], e / tol)
+                if itH.get("scaling"):
+                    maxima["scaling_err_over_tol"] = max(maxima.get("scaling_err_over_tol", 0.0), e / tol)
             if not e <= tol:
                 failures.append(("lin", itH, f"op {i}: |H - (aF+bG)| = {e} > {tol} (a={a}, b={bb})"))
                 break
@@ -568,13 +692,16 @@ def finish(rep, info, stats, samples, counts):
             "axioms: the standard-library axioms of Coq's classical reals (allow-list AX_REALS) for the theorems over R; the structural theorems are closed",
             "modelled, not verified: usize as nat (no index near 2^64), frames as lists of equal length, Fixed ring buffer as in C06",
             "libm sin/cos are not modelled: the crate's own values are passed to the model as data; lib/c18_model.py is a second transcription compared bit for bit",
-            "Base/Float.v (Flocq BinarySingleNaN) validated against rustc by lib/floatbase.py in this run"],
+            "Base/Float.v (Flocq BinarySingleNaN) validated against rustc by lib/floatbase.py in this run",
+            "formats 10..23: the model's sample conversions are the ones GENERATED from conv.rs / impl_sample! on this run (Dsp/SincRunGen.v over Sample/SampleOps.v); equilibrium, to_sample::<f64>() of every input sample and every tap accumulation are compared with their specification values (Sample/ConvSpec.v, IEEE) and a mismatch is a disagreement; the python transcription uses the specification values only"],
         "theorems": th, "axioms_reported": info.get("axioms", []),
         "proved_clauses": ["max_depth = min(idx+1, depth)", "nl - n does not underflow", "tap indices in range / no panic, no UB",
                            "x = 0 returns frames[idx] (R, true sin/cos/pi)", "ratio 1: output j = source j - depth, zeros before (R)",
                            "linearity in the buffered frames (R)", "reset = initial silent state"],
         "tested_clauses": ["ratio-1 error <= 1e-12 * peak with glibc sin/cos and rounded PI", "linearity within rounding (f64 1e-12*scale, f32 (8 taps+4) ulp24*scale, i16 (1+|a|+|b|) LSB per tap)",
-                           "finite output for finite input (|s| <= 1e300)", "constant input within 1 % once the buffer is full, depth >= 4 (i16: + 1 LSB per tap truncation)"],
+                           "finite output for finite input (|s| <= 1e300)", "constant input within 1 % once the buffer is full, depth >= 4 (integers: + 1 LSB per tap truncation)",
+                           "all fourteen sample formats (i8 i16 I24 i32 I48 i64 u8 u16 U24 u32 U48 u64 f32 f64), mono and stereo: ratio 1 reproduces the source delayed by depth BIT-EXACTLY for integer formats <= 48 bits including the rails MIN and MAX (64-bit integers and floats: 1e-12 of the peak amplitude; 64-bit rails fall in K5)",
+                           "float streams with tiny (f32 peak 2^-130..2^-120, f64 subnormal) and huge (1e38 / 1e300) peaks at ratio 1 relative to their peak; scaling H = k F with k in {2^-126, 2^-100, 2^100} commutes with interpolation within rounding"],
         "evaluations": counts.get("n", 0), "distinct_nontrivial": counts.get("nontriv", 0),
         "rule": "non-trivial = depth >= 2 and an interpolation at a fractional position (x != 0) while 0 < idx < depth (priming phase) or after a reset; distinct harness lines counted",
         "samples": samples, "input_distribution": stats, "disagreements": counts.get("bad", 0),
